@@ -57,6 +57,7 @@ fn run_contours(h: usize, w: usize, bits: Vec<bool>, external: bool) -> CImpl {
     }
 }
 
+#[allow(dead_code)]
 fn coq_mask(h: usize, w: usize, bits: &[bool]) -> String {
     let rows: Vec<String> = (0..h)
         .map(|y| {
@@ -83,15 +84,12 @@ fn exec_contours(line: &str) -> String {
     assert_eq!(bits.len(), h * w);
     let nfg = bits.iter().filter(|&&b| b).count();
     let r = run_contours(h, w, bits.clone(), external);
-    let (imp, ncont) = match &r {
-        CImpl::Done(cs) => {
-            let v: Vec<String> = cs.iter().map(|c| coq_points(c)).collect();
-            (format!("CDone [{}]", v.join(";")), cs.len() as i64)
-        }
-        CImpl::Panic => ("CPanic".to_string(), -1),
+    let ncont = match &r {
+        CImpl::Done(cs) => cs.len() as i64,
+        CImpl::Panic => -1,
         CImpl::Timeout => {
             TIMEOUTS.fetch_add(1, std::sync::atomic::Ordering::Relaxed);
-            ("CTimeout".to_string(), -2)
+            -2
         }
     };
     let size = if h * w <= 12 { "small" } else if h * w <= 36 { "mid" } else { "large" };
@@ -101,25 +99,54 @@ fn exec_contours(line: &str) -> String {
         let nc = match ncont { -2 => "timeout", -1 => "panic", 0 => "c0", 1 => "c1", 2..=3 => "c2-3", _ => "c4+" };
         format!("contours-{}-{}-{}", if external { "ext" } else { "list" }, size, nc)
     };
-    let term = format!(
-        "{{| c_mask := {}; c_mode := {}; c_impl := {} |}}",
-        coq_mask(h, w, &bits),
-        if external { "External" } else { "ListMode" },
-        imp
-    );
+    let md = if external { "External" } else { "ListMode" };
+    let mbits = hex_bits(&bits);
+    let term = match &r {
+        CImpl::Done(cs) => {
+            let compact = cs.iter().all(|c| c.iter().all(|&(y, x)| (0..16).contains(&y) && (0..16).contains(&x)));
+            if compact {
+                // one number per contour: sentinel 1, then a byte y*16+x per point
+                let v: Vec<String> = cs
+                    .iter()
+                    .map(|c| {
+                        let mut t = String::from("0x1");
+                        for &(y, x) in c {
+                            t.push_str(&format!("{:x}{:x}", y, x));
+                        }
+                        t
+                    })
+                    .collect();
+                format!("mkc {} {} {} {} [{}]", h, w, mbits, md, v.join(";"))
+            } else {
+                let v: Vec<String> = cs.iter().map(|c| coq_points(c)).collect();
+                format!("mkc_plain {} {} {} {} (CDone [{}])", h, w, mbits, md, v.join(";"))
+            }
+        }
+        CImpl::Panic => format!("mkc_plain {} {} {} {} CPanic", h, w, mbits, md),
+        CImpl::Timeout => format!("mkc_plain {} {} {} {} CTimeout", h, w, mbits, md),
+    };
     format!("{}\t{}\t{}", tag, line, term)
 }
 
 // ---------------------------------------------------------------- drawing
-/// Coq list of the (y, x) coordinates of the set bits of a row-major h x w bitmap.
-fn changed_points(bits: &[bool], w: usize) -> String {
-    let v: Vec<(i64, i64)> = bits
-        .iter()
-        .enumerate()
-        .filter(|&(_, &b)| b)
-        .map(|(i, _)| ((i / w) as i64, (i % w) as i64))
-        .collect();
-    coq_points(&v)
+/// Hex literal whose bit i is bits[i].
+fn hex_bits(bits: &[bool]) -> String {
+    if !bits.iter().any(|&b| b) {
+        return "0".to_string();
+    }
+    let n = (bits.len() + 3) / 4;
+    let mut s = String::from("0x");
+    for d in (0..n).rev() {
+        let mut v = 0u32;
+        for k in 0..4 {
+            let i = d * 4 + k;
+            if i < bits.len() && bits[i] {
+                v |= 1 << k;
+            }
+        }
+        s.push(std::char::from_digit(v, 16).unwrap());
+    }
+    s
 }
 
 fn pt(y: i64, x: i64) -> Point {
@@ -248,14 +275,10 @@ fn exec_draw(line: &str) -> String {
         wcls,
         if h == 0 || w == 0 { "-emptyimg" } else { "" }
     );
-    let (imp, guard) = match &r {
-        Some((bits, g)) => (format!("Some {}", changed_points(bits, w)), *g),
-        None => ("None".to_string(), true),
+    let term = match &r {
+        Some((bits, g)) => format!("mkd {} {} ({}) {} {}", h, w, prim, hex_bits(bits), g),
+        None => format!("mkd_panic {} {} ({})", h, w, prim),
     };
-    let term = format!(
-        "{{| d_h := {}; d_w := {}; d_prim := {}; d_impl := {}; d_guard := {} |}}",
-        h, w, prim, imp, guard
-    );
     format!("{}\t{}\t{}", tag, line, term)
 }
 
